@@ -1852,25 +1852,42 @@ func execE2ELayout(f []string) Result {
 		}
 	}
 	// run the worker
-	cmd := exec.Command(os.Args[0], "e2eworker")
-	cmd.Stdin = &in
-	var stdout bytes.Buffer
-	cmd.Stdout = &stdout
-	var stderr bytes.Buffer
-	cmd.Stderr = &stderr
-	cmd.Env = append(os.Environ(), "GOMEMLIMIT=2GiB", "GOMAXPROCS=4")
-	done := make(chan error, 1)
-	if err := cmd.Start(); err != nil {
-		return Result{Out: "worker-start-failed"}
-	}
-	go func() { done <- cmd.Wait() }()
+	// A worker that does not finish in 120 s is run once more with 600 s before it is reported: on a loaded
+	// machine (several checks in parallel) a wide dataset can need more than the first limit, and a limit that
+	// depends on the load must not raise an alarm.  A query that really hangs still ends as e2e-worker/timeout.
+	inBytes := append([]byte(nil), in.Bytes()...)
+	var stdout, stderr bytes.Buffer
 	var werr error
-	select {
-	case werr = <-done:
-	case <-time.After(120 * time.Second):
-		cmd.Process.Kill()
-		<-done
-		return Result{Out: "worker-timeout", Fails: []PropFail{{Sig: "e2e-worker/timeout", Msg: "engine worker did not finish within 120 s"}}, Nontrivial: true}
+	for attempt, limit := range []time.Duration{120 * time.Second, 600 * time.Second} {
+		stdout.Reset()
+		stderr.Reset()
+		cmd := exec.Command(os.Args[0], "e2eworker")
+		cmd.Stdin = bytes.NewReader(inBytes)
+		cmd.Stdout = &stdout
+		cmd.Stderr = &stderr
+		cmd.Env = append(os.Environ(), "GOMEMLIMIT=2GiB", "GOMAXPROCS=4")
+		done := make(chan error, 1)
+		if err := cmd.Start(); err != nil {
+			return Result{Out: "worker-start-failed"}
+		}
+		go func() { done <- cmd.Wait() }()
+		timedOut := false
+		select {
+		case werr = <-done:
+		case <-time.After(limit):
+			cmd.Process.Kill()
+			<-done
+			timedOut = true
+		}
+		if !timedOut {
+			if attempt > 0 {
+				tagSet["worker-needed-second-run"] = true
+			}
+			break
+		}
+		if attempt == 1 {
+			return Result{Out: "worker-timeout", Fails: []PropFail{{Sig: "e2e-worker/timeout", Msg: "engine worker did not finish within 120 s, nor within 600 s when run again"}}, Nontrivial: true}
+		}
 	}
 	lines := strings.Split(strings.TrimSpace(stdout.String()), "\n")
 	var resLines []string
